@@ -16,7 +16,7 @@ deriving Repr, Inhabited
 /-- stable insertion sort by key (Python's `list.sort(key=…)` is stable) -/
 def insertByKey {α : Type} (key : α → Int) (x : α) : List α → List α
   | [] => [x]
-  | y :: ys => if key x < key y then x :: y :: ys else y :: insertByKey key x ys
+  | y :: ys => if key x ≤ key y then x :: y :: ys else y :: insertByKey key x ys
 
 def stableSort {α : Type} (key : α → Int) (l : List α) : List α :=
   l.foldr (insertByKey key) []
